@@ -174,6 +174,32 @@ func validateAll(vals []reflect.Value) error {
 		if !v.IsValid() {
 			continue
 		}
+		// a generic wrapper (NilT, OptT, ...) or a response wrapper around a value has no Validate of
+		// its own: the generated code validates what it holds, so do we
+		inner := v
+		for inner.Kind() == reflect.Pointer || inner.Kind() == reflect.Interface {
+			if inner.IsNil() {
+				break
+			}
+			inner = inner.Elem()
+		}
+		if inner.Kind() == reflect.Struct {
+			if _, hasValidate := reflect.PointerTo(inner.Type()).MethodByName("Validate"); !hasValidate {
+				for _, fn := range []string{"Value", "Response"} {
+					if f := inner.FieldByName(fn); f.IsValid() && f.CanInterface() {
+						if nf := inner.FieldByName("Null"); nf.IsValid() && nf.Kind() == reflect.Bool && nf.Bool() {
+							continue
+						}
+						if sf := inner.FieldByName("Set"); sf.IsValid() && sf.Kind() == reflect.Bool && !sf.Bool() {
+							continue
+						}
+						if err := validateAll([]reflect.Value{f}); err != nil {
+							return err
+						}
+					}
+				}
+			}
+		}
 		var iv any
 		if v.CanAddr() {
 			iv = v.Addr().Interface()
@@ -928,6 +954,21 @@ func explainFromDoc(f *vk.Finding, doc specgen.Doc, opName string) *vk.Finding {
 				pt, _, _ = strings.Cut(pt, "[")
 				if pt != "Value" {
 					names = append(names, alnumLower(pt))
+				}
+			}
+		}
+		// the parameter that differs is itself an exploded object: any of its members may have been
+		// filled from another parameter's pair (an ABSENT optional object arrives set)
+		if len(names) > 0 {
+			for _, p := range op.Params {
+				if p.In != "query" || p.Content != "" || alnumLower(p.Name) != names[0] {
+					continue
+				}
+				sch := doc.Components.Resolve(p.Schema)
+				if sch != nil && sch.Type == "object" && (p.Style == "" || p.Style == "form") && (p.Explode == nil || *p.Explode) {
+					for _, pr := range sch.Props {
+						names = append(names, alnumLower(pr.Name))
+					}
 				}
 			}
 		}
